@@ -334,6 +334,39 @@ func doEq(line int, r J, stats map[string]int) {
 				}
 			}
 			stats["equal_calls"] += 4
+			// both values in ONE message, built one right after the other (zero-sized objects then share an address with
+			// their neighbour): the verdict does not depend on where the values live
+			if ai == 0 {
+				func() {
+					m1, seg1, err := capnp.NewMessage(aa.mk())
+					if err != nil {
+						return
+					}
+					for _, c := range shared {
+						m1.AddCap(c.AddRef())
+					}
+					qa, err := build(seg1, a, false)
+					if err != nil {
+						return
+					}
+					qb, err := build(seg1, b, false)
+					if err != nil {
+						return
+					}
+					for _, pr := range [][2]capnp.Ptr{{qa, qb}, {qb, qa}} {
+						eq, err := capnp.Equal(pr[0], pr[1])
+						stats["equal_calls"]++
+						if err != nil {
+							rep("same-message-error", err.Error(), tag)
+							return
+						}
+						if want != "either" && verdict(eq) != want {
+							rep("same-message-verdict", verdict(eq), tag)
+							return
+						}
+					}
+				}()
+			}
 			// a layout of a whose padding bits / bytes carry garbage (spec-generated): same value, so the same verdicts
 			if da, ok := r["da"]; ok && ai == 0 {
 				if dirty := wordsToBytes(da); len(dirty) > 0 {
